@@ -23,7 +23,7 @@ theorem idle_implies_no_sequence (k : KState) :
   refine ⟨h1, fun ms h => h1 ?_⟩
   unfold canBlockUpdateIdleWaiting at h
   simp only [Bool.and_eq_true] at h
-  exact h.1.1
+  exact h.1.1.1
 
 
 /-- `ticksN (n + 1)` is `ticksN n` followed by one more `tick_states` -/
@@ -88,7 +88,7 @@ def exSeqQuiet : KState :=
 example : SeqQuiet exSeqQuiet [30] Override.OverrideStates.new ∧ exSeqQuiet.seq.st.active = true ∧
     exSeqQuiet.seq.st.ticksUntilTimeout = 5 :=
   ⟨⟨⟨rfl, rfl, rfl, rfl, rfl, rfl, rfl, rfl, by intro st hst; simp [exSeqQuiet] at hst; subst hst; trivial⟩,
-    rfl, rfl, rfl, rfl, ⟨fun _ h => h, fun _ h => h⟩, rfl, rfl, rfl, rfl, rfl, rfl⟩, rfl, rfl⟩
+    rfl, rfl, rfl, rfl, ⟨fun _ h => h, fun _ h => h⟩, rfl, rfl, rfl, rfl, rfl, rfl, rfl⟩, rfl, rfl⟩
 
 /-- **hidden_modes_press_nothing_kan_partial** (proved for the press loop, every table, any keys, any
 modifier mask, any layout).
